@@ -302,8 +302,11 @@ Close Scope string_scope.
 Definition gauss_ok_exact (sparse : bool) (mean : Qvec) (S : Qmat) (off : Qvec) (T : Qmat) : bool :=
   is_square S && ql_eqb off (bmean (length S) mean) && has_shape (length S) (length S) T &&
   mat_close tol9 (qmm S T) (qid (length S)).
+(* (if-then-else, not ||: under vm_compute the arguments of orb would all be evaluated, i.e. three 77 x 77 products per case) *)
 Definition check_gauss (sparse : bool) (mean : Qvec) (S : Qmat) (off : Qvec) (T : Qmat) : bool :=
-  gauss_ok false sparse mean S off T || gauss_ok true sparse mean S off T || gauss_ok_exact sparse mean S off T.
+  if gauss_ok_exact sparse mean S off T then true
+  else if gauss_ok true sparse mean S off T then true
+  else gauss_ok false sparse mean S off T.
 (* EXACT cells: diagonal and triangular matrices with power-of-two diagonals and small dyadic entries, for which every
    floating-point solve is exact: the read-off map must be the exact inverse of the stored square root, no tolerance *)
 Definition check_gauss_exact (mean : Qvec) (S : Qmat) (off : Qvec) (T : Qmat) : bool :=
@@ -323,7 +326,7 @@ Definition check_gmrf_periodic := gmrf_periodic_ok.
 (* N = 1 through _sample: p = T z is what the solves return; either state of the repair *)
 Definition check_gmrf_raw1 (b : bc) (n : nat) (mean : Qvec) (T : Qmat) (z : Qvec) (obs : Qmat) : bool :=
   (* tol6: two separate solves against the sqrt(eps)-regularised (condition ~ 1e8) neumann matrix are compared *)
-  mat_close tol6 obs (gmrf_raw1 false b n mean (qmv T z)) || mat_close tol6 obs (gmrf_raw1 true b n mean (qmv T z)).
+  if mat_close tol6 obs (gmrf_raw1 true b n mean (qmv T z)) then true else mat_close tol6 obs (gmrf_raw1 false b n mean (qmv T z)).
 
 Definition raw_eqb (a b : raw) : bool :=
   match a, b with Raw1 x, Raw1 y => ql_eqb x y | Raw2 x, Raw2 y => qll_eqb x y | _, _ => false end.
